@@ -109,7 +109,7 @@ def obligations(tier: str):
     add("sge_f1p_postponed_annotations_create", fixture="f1p", rep="sge", decider="grow", max_depth=2, gene_length=2)
     from vf.fixtures import family
 
-    for k in family.interesting(3, 300, every=16 if T else 90):
+    for k in family.interesting(3, 300, every=30 if T else 90):
         add(f"tree_grow_family{k}_create", fixture="family", index=k, rep="tree", decider="grow", max_depth=3)
         add(f"ge_family{k}_create", fixture="family", index=k, rep="ge", decider="grow", max_depth=3, gene_length=6)
     # --- tree variation operators
